@@ -100,3 +100,56 @@ def evaluate(spec, order, stack_values, seed=0):
             env[o] = r
     final = [val(v) for v in spec["tgt_ws"]]
     return final, st
+
+
+COMMUTATIVE_OPS = {"ADD", "MUL", "AND", "OR", "XOR", "EQ"}
+
+
+def wf_violation(spec):
+    """well-formedness of a specification (DESIGN 3.2): returns None or a reason"""
+    from .evm import ARITY
+    prod = {}
+    for u in spec["user_instrs"]:
+        for o in u["outpt_sk"]:
+            if o in prod:
+                return "variable %s has two producers (%s, %s)" % (o, prod[o], u["id"])
+            if o in spec["src_ws"]:
+                return "variable %s is both a source variable and an output of %s" % (o, u["id"])
+            prod[o] = u["id"]
+        d = u["disasm"]
+        if u.get("commutative") and d not in COMMUTATIVE_OPS:
+            return "%s (%s) is flagged commutative" % (u["id"], d)
+        if d in COMMUTATIVE_OPS and not u.get("commutative"):
+            return "%s (%s) is not flagged commutative" % (u["id"], d)
+        if d in ARITY and len(u["inpt_sk"]) != ARITY[d]:
+            return "%s (%s) has %d operands" % (u["id"], d, len(u["inpt_sk"]))
+        if d in ("MSTORE", "SSTORE", "MSTORE8") and not u.get("storage"):
+            return "%s is not flagged as a store" % u["id"]
+    ids = [u["id"] for u in spec["user_instrs"]]
+    if len(ids) != len(set(ids)):
+        return "duplicated instruction id"
+    for v in list(spec["tgt_ws"]) + [x for u in spec["user_instrs"] for x in u["inpt_sk"]]:
+        if isinstance(v, str) and v not in prod and v not in spec["src_ws"]:
+            return "variable %s is used but neither a source variable nor produced" % v
+    # acyclic data flow
+    byout = dict((o, u) for u in spec["user_instrs"] for o in u["outpt_sk"])
+    state = {}
+
+    def visit(u):
+        if state.get(u["id"]) == 1:
+            return True
+        if state.get(u["id"]) == 2:
+            return False
+        state[u["id"]] = 1
+        for x in u["inpt_sk"]:
+            if x in byout and visit(byout[x]):
+                return True
+        state[u["id"]] = 2
+        return False
+    for u in spec["user_instrs"]:
+        if visit(u):
+            return "cyclic data flow through %s" % u["id"]
+    for a, b in spec.get("dependencies", []):
+        if a not in ids or b not in ids:
+            return "dependency [%s, %s] names an unknown instruction" % (a, b)
+    return None
